@@ -103,6 +103,7 @@ namespace
         geoms.emplace_back(x);
       }
       check_cells(trafo, geoms);
+      check_reuse_and_configs(trafo, Index(geoms.size()));
       inv_lattice = 3;
       strict_newton = false;
       check_inverse(trafo, geoms);
@@ -119,6 +120,89 @@ namespace
       if constexpr(D >= 2) check_entities<1>(trafo);
       if constexpr(D >= 3) check_entities<2>(trafo);
       check_inverse(trafo, geoms);
+      check_reuse_and_configs(trafo, Index(geoms.size()));
+      check_inverse_orders(trafo, geoms);
+    }
+
+    /// one trafo evaluator reused over the cells in non-natural orders == fresh evaluator per cell (bitwise); evaluation
+    /// with a single tag (jac_det only, jac_inv only, hess_inv only: the first and only request) == full evaluation
+    void check_reuse_and_configs(const TrafoType& trafo, Index ncells)
+    {
+      const auto pts = ref_lattice<Shape_>(3);
+      auto snap = [&](TrafoEvaluator& te, std::vector<double>& out)
+      {
+        TrafoData td; out.clear();
+        for(auto& xi : pts)
+        {
+          typename TrafoEvaluator::DomainPointType p; for(int j = 0; j < D; ++j) p[j] = double(xi[(size_t)j]);
+          te(td, p);
+          out.push_back(td.jac_det);
+          for(int i = 0; i < D; ++i) { out.push_back(td.img_point[i]); for(int j = 0; j < D; ++j) { out.push_back(td.jac_mat[i][j]); out.push_back(td.jac_inv[i][j]); for(int l = 0; l < D; ++l) { out.push_back(td.hess_ten(i, j, l)); out.push_back(td.hess_inv(i, j, l)); } } }
+        }
+        out.push_back(te.volume());
+      };
+      std::vector<std::vector<double>> fresh((size_t)ncells);
+      for(Index k = 0; k < ncells; ++k) { TrafoEvaluator te(trafo); te.prepare(k); snap(te, fresh[(size_t)k]); te.finish(); }
+      std::vector<Index> order;
+      for(Index k = ncells; k > 0; --k) order.push_back(k - 1);
+      for(Index k = 0; k < ncells; ++k) { order.push_back(k); order.push_back(k); }
+      for(Index k = 0; k < ncells; ++k) order.push_back((k * 7 + ncells / 2) % ncells);
+      TrafoEvaluator te(trafo);
+      std::vector<double> got;
+      for(Index k : order)
+      {
+        te.prepare(k); snap(te, got); te.finish();
+        c.count("reuse_cell_visits");
+        if(got != fresh[(size_t)k]) { c.fail(kp + " reuse.evaluator", "trafo evaluator reused on cell " + std::to_string(k) + " differs from a fresh evaluator"); return; }
+      }
+      // single-tag configurations on the first and the last cell
+      for(Index k : {Index(0), ncells - 1})
+      {
+        TrafoEvaluator tf(trafo), t1(trafo);
+        tf.prepare(k); t1.prepare(k);
+        TrafoData full;
+        typename TrafoEvaluator::template ConfigTraits<TrafoTags::jac_det>::EvalDataType d_det;
+        typename TrafoEvaluator::template ConfigTraits<TrafoTags::jac_inv>::EvalDataType d_inv;
+        typename TrafoEvaluator::template ConfigTraits<TrafoTags::hess_inv>::EvalDataType d_hinv;
+        typename TrafoEvaluator::template ConfigTraits<TrafoTags::img_point>::EvalDataType d_img;
+        for(auto& xi : pts)
+        {
+          typename TrafoEvaluator::DomainPointType p; for(int j = 0; j < D; ++j) p[j] = double(xi[(size_t)j]);
+          tf(full, p);
+          t1(d_hinv, p); t1(d_det, p); t1(d_inv, p); t1(d_img, p);
+          c.count("config_subset_points");
+          bool ok = (d_det.jac_det == full.jac_det);
+          for(int i = 0; i < D; ++i) { ok = ok && (d_img.img_point[i] == full.img_point[i]); for(int j = 0; j < D; ++j) { ok = ok && (d_inv.jac_inv[i][j] == full.jac_inv[i][j]); for(int l = 0; l < D; ++l) ok = ok && (d_hinv.hess_inv(i, j, l) == full.hess_inv(i, j, l)); } }
+          if(!ok) { c.fail(kp + " config.single-tag", "evaluation with a single trafo tag differs from the full evaluation on cell " + std::to_string(k) + " xi=" + pt_str<D>(xi)); t1.finish(); tf.finish(); return; }
+        }
+        t1.finish(); tf.finish();
+      }
+    }
+
+    /// one InverseMapping object queried in reversed / repeated order returns what it returned in natural order
+    void check_inverse_orders(const TrafoType& trafo, const std::vector<CellGeom<Shape_>>& geoms)
+    {
+      Trafo::InverseMapping<TrafoType, double> inv(trafo);
+      typedef typename Trafo::InverseMapping<TrafoType, double>::ImagePointType IP;
+      std::vector<IP> qs;
+      const auto lattice = ref_lattice<Shape_>(3);
+      for(auto& g : geoms) for(auto& xi : lattice) { auto x = g.map(xi); IP p; for(int j = 0; j < D; ++j) p[j] = double(x[(size_t)j]); qs.push_back(p); }
+      auto flat = [&](const IP& p, std::vector<double>& out)
+      {
+        out.clear();
+        auto r = inv.unmap_point(p, true);
+        for(size_t q = 0; q < r.cells.size(); ++q) { out.push_back(double(r.cells[q])); for(int j = 0; j < D; ++j) out.push_back(r.dom_points[q][j]); }
+      };
+      std::vector<std::vector<double>> ref(qs.size());
+      for(size_t i = 0; i < qs.size(); ++i) flat(qs[i], ref[i]);
+      std::vector<double> got;
+      for(size_t i = qs.size(); i > 0; --i)
+      {
+        flat(qs[i - 1], got); c.count("inverse_order_queries");
+        if(got != ref[i - 1]) { c.fail(kp + " inverse.order", "unmap_point depends on the order of the queries"); return; }
+        flat(qs[i - 1], got);
+        if(got != ref[i - 1]) { c.fail(kp + " inverse.repeat", "unmap_point gives another answer when asked twice"); return; }
+      }
     }
 
     // ---------------------------------------------------------------- cell evaluator
